@@ -67,7 +67,11 @@ func (r *EngineRunner) execConc(f []string) string {
 	case "concpark":
 		return r.concPark(f[2], f[3], f[4])
 	case "concstress":
-		return r.concStress(atoi(f[2]), atoi(f[3]), atoi(f[4]), uint64(atou(f[5])), f[6] == "1")
+		static := 0
+		if len(f) > 7 {
+			static = atoi(f[7])
+		}
+		return r.concStress(atoi(f[2]), atoi(f[3]), atoi(f[4]), uint64(atou(f[5])), f[6] == "1", static)
 	case "concmix":
 		return r.concMix(atoi(f[2]), atoi(f[3]), uint64(atou(f[4])))
 	}
@@ -304,7 +308,7 @@ type hop struct {
 	inv, ret int64
 }
 
-func (r *EngineRunner) concStress(clients, opsPer, nkeys int, seed uint64, withMerge bool) string {
+func (r *EngineRunner) concStress(clients, opsPer, nkeys int, seed uint64, withMerge bool, static int) string {
 	// the event recorders of the harness are single-threaded: off while the clients run freely
 	savedEv, savedFs, savedMf := fio.VerifEvent, kv.VerifFsEvent, kv.VerifMergeFile
 	fio.VerifEvent, kv.VerifFsEvent, kv.VerifMergeFile = nil, nil, nil
@@ -317,6 +321,16 @@ func (r *EngineRunner) concStress(clients, opsPer, nkeys int, seed uint64, withM
 		keys[i] = []byte(fmt.Sprintf("ck%02d", i))
 	}
 	var panics int32
+	// a population of keys that nobody writes during the run (the index holds many entries per shard): every
+	// client reads them in between and must always find exactly the value they were given
+	staticKey := func(i int) []byte { return []byte(fmt.Sprintf("sk%05d", i)) }
+	staticVal := func(i int) []byte { return []byte(fmt.Sprintf("static-value-%05d", i*7+3)) }
+	for i := 0; i < static; i++ {
+		if err := r.db.Put(staticKey(i), staticVal(i)); err != nil {
+			r.fail("C09", "Put of a static key failed: %v", err)
+		}
+		r.ref.m[string(staticKey(i))] = staticVal(i)
+	}
 	for c := 0; c < clients; c++ {
 		wg.Add(1)
 		go func(c int) {
@@ -361,6 +375,15 @@ func (r *EngineRunner) concStress(clients, opsPer, nkeys int, seed uint64, withM
 					}
 				}
 				hist[c] = append(hist[c], h)
+				if static > 0 {
+					for j := 0; j < 6; j++ {
+						si := rng.Intn(static)
+						v, err := r.db.Get(staticKey(si))
+						if err != nil || !bytes.Equal(v, staticVal(si)) {
+							r.failSync("C08", "Get(%s) of a key nobody writes returned %q, %v; the key holds %q throughout", staticKey(si), v, err, staticVal(si))
+						}
+					}
+				}
 				if i%16 == 7 {
 					_ = r.db.ListKeys()
 					_ = r.db.Stat()
